@@ -86,7 +86,9 @@ pub enum Term {
     /// concatenation of each segment's bytes; every hole must evaluate to a `Str`. Kept as a
     /// distinct term (rather than desugared to `Str[<bin>]` at parse time) so the formatter can
     /// round-trip the source form — including which delimiter style was written.
-    String(StringStyle, Vec<StrSegment>),
+    /// The `Spanned` covers the whole literal, delimiters included (so the formatter's trivia scan can
+    /// step over it: what is a comment or a quote inside a hole is for the parser to say).
+    String(StringStyle, Vec<StrSegment>, Spanned),
     Match(Match),
     /// A braced expression `{ … }`: a new scope whose branches each start from the flowing value.
     Block(Expression),
